@@ -1,18 +1,26 @@
 #!/bin/bash
-# usage: tools/eval_seed.sh <prop> <suffix> <worktree>   e.g. tools/eval_seed.sh C01 c /tmp/wt5/C01
-# copies the sub-agent's seed into /verif/seeded/<prop>-<suffix>, confirms the demo (0 on clean /repo, 1 with the patch),
-# runs the pinned suite with the patch in the scratch suite worktree, then runs the property's check against it
+# usage: tools/eval_seed.sh <prop> <suffix> <worktree>   e.g. tools/eval_seed.sh C01 f /tmp/wt10/C01
+# copies the sub-agent's seed into /verif/seeded/<prop>-<suffix>, confirms the demo in the private worktree /tmp/wtx
+# (0 on the unchanged tree, 1 with the patch), runs the pinned suite with the patch in the scratch suite worktree, then
+# runs the property's check against the patched private worktree.  /repo itself is never touched.
 prop=$1; suffix=$2; wt=$3; seed=$prop-$suffix
 d=/verif/seeded/$seed
 mkdir -p $d
 cp $wt/seed_$prop.diff $d/patch.diff || exit 2
 sed "s#$wt#/repo#g" $wt/demo_$prop.py > $d/demo.py
-cd /repo || exit 2
-if ! git diff --quiet; then echo "repo dirty"; exit 2; fi
-/venv/bin/python $d/demo.py > /tmp/eval_demo_base.txt 2>&1; base=$?
-git apply $d/patch.diff || { echo "$seed: patch does not apply to /repo"; exit 2; }
-/venv/bin/python $d/demo.py > /tmp/eval_demo_mut.txt 2>&1; mut=$?
-git checkout -- .
+head=$(git -C /repo rev-parse HEAD)
+x=/tmp/wtx
+[ -d $x ] || git -C /repo worktree add -q --detach $x HEAD
+cd $x || exit 2
+git checkout -q --detach $head 2>/dev/null; git reset -q --hard; git clean -fdq
+sed "s#/repo#$x#g" $d/demo.py > $x/demo_tmp.py
+/venv/bin/python $x/demo_tmp.py > /tmp/eval_demo_base.txt 2>&1; base=$?
+git apply $d/patch.diff || { echo "$seed: patch does not apply"; rm -f $x/demo_tmp.py; exit 2; }
+/venv/bin/python $x/demo_tmp.py > /tmp/eval_demo_mut.txt 2>&1; mut=$?
+rm -f $x/demo_tmp.py; git reset -q --hard
 echo "$seed demo: clean=$base patched=$mut"
-/verif/tools/suite_with_patch.sh /tmp/wt4_suite $d/patch.diff "$seed suite:" 2>&1 | grep -v WARN
-cd /verif && tools/try_seed.sh $seed $prop 2>&1 | grep -E "exit=|^antismash|^asa" | cut -c1-260 | head -6
+s=/tmp/wt4_suite
+[ -d $s ] || git -C /repo worktree add -q --detach $s HEAD
+(cd $s && git checkout -q --detach $head 2>/dev/null; git reset -q --hard; git clean -fdq)
+/verif/tools/suite_with_patch.sh $s $d/patch.diff "$seed suite:" 2>&1 | grep -v WARN
+cd /verif && tools/nd.sh seeded/$seed $prop 2>&1 | grep -E "exit=|^antismash|^asa|ANALYSIS" | cut -c1-260 | head -6
